@@ -78,7 +78,7 @@ def search(ck, tier, seed):
                     sd1 = t.state_dict()
                     if not state_equal(sd0, sd1):
                         changed = [k for k in sd0 if not torch.equal(sd0[k], sd1[k])]
-                        documented = all(("running_" in k) or ("log_scale" in k) or ("shift" in k) or ("initialized" in k) for k in changed)
+                        documented = all(("running_" in k) or ("num_batches_tracked" in k) or ("log_scale" in k) or ("shift" in k) or ("initialized" in k) for k in changed)
                         if mode == "eval" or not documented:      # training / first training call: documented statistics only
                             ck.finding("side-effect:state-modified:%s:%s" % (mode, e["name"]),
                                        "%s %s in %s mode changed %s" % (e["name"], direction, mode, changed), case)
